@@ -15,15 +15,16 @@ open PrologVerif PrologVerif.VM PrologVerif.DecompileCompile PrologVerif.Activat
 
 /-! ## continuations as goal lists -/
 
-inductive ContGoals (tmpl : Term) (max : Nat) : Cont → List Term → Prop
+/-- the pending goals of a continuation: each with the cut parent of the activation it belongs to -/
+inductive ContGoals (tmpl : Term) (max : Nat) : Cont → List (Term × Nat) → Prop
   | collect : ContGoals tmpl max (.collect tmpl max) []
   | exec {tbl vars : List Nat} {ρ : Nat → Nat} {ops : List Op} {gs : List Rep} {cp : Nat} {k : Cont}
-      {G : List Term} :
+      {G : List (Term × Nat)} :
       BodySem tbl ops gs → Renames tbl vars ρ →
-      (∀ g ∈ gs, g ≠ .atom "!" ∧ hornGoal (goalTerm g) = true) →
+      (∀ g ∈ gs, g = .atom "!" ∨ hornGoal (goalTerm g) = true) →
       ContGoals tmpl max k G →
       ContGoals tmpl max (.exec (ops ++ [.exit]) vars cp k)
-        (gs.map (fun g => (goalTerm g).rename ρ) ++ G)
+        (gs.map (fun g => ((goalTerm g).rename ρ, cp)) ++ G)
 
 theorem hornGoal_rename (ρ : Nat → Nat) (t : Term) : hornGoal (t.rename ρ) = hornGoal t := by
   cases t with
@@ -34,13 +35,19 @@ theorem hornGoal_rename (ρ : Nat → Nat) (t : Term) : hornGoal (t.rename ρ) =
 def recordAnswer (tmpl : Term) (env : Env) (m : MS) : MS :=
   { m with user := { m.user with answers := app env tmpl :: m.user.answers } }
 
-/-- **one step of a continuation**: record an answer, or arrive at the first goal -/
-theorem cont_step {tmpl : Term} {max : Nat} {K : Cont} {G : List Term} (h : ContGoals tmpl max K G) :
+/-- the promise the cut instruction returns -/
+def cutPromise (pc : List Op) (vars : List Nat) (k : Cont) (env : Env) (cp : Nat) : Pr :=
+  { delayed := [.afterCut pc vars k [] [] env cp], cutParent := some cp }
+
+/-- **one step of a continuation**: record an answer, arrive at the first goal, or cut -/
+theorem cont_step {tmpl : Term} {max : Nat} {K : Cont} {G : List (Term × Nat)} (h : ContGoals tmpl max K G) :
     ∀ (fuel : Nat) (env : Env) (m : MS) (res : Pr × MS), applyCont fuel K env m = some res →
     (G = [] ∧ res = (if (recordAnswer tmpl env m).user.answers.length ≥ max then okP else failP,
         recordAnswer tmpl env m)) ∨
-    (∃ g G' K' fuel', G = g :: G' ∧ ContGoals tmpl max K' G' ∧ fuel' < fuel ∧ hornGoal g = true ∧
-      arrive fuel' (functorName g) (argList g) K' env m = some res) := by
+    (∃ g cp G' K' fuel', G = (g, cp) :: G' ∧ ContGoals tmpl max K' G' ∧ fuel' < fuel ∧ hornGoal g = true ∧
+      arrive fuel' (functorName g) (argList g) K' env m = some res) ∨
+    (∃ cp G' pc vars k, G = (.atom "!", cp) :: G' ∧ ContGoals tmpl max (.exec pc vars cp k) G' ∧
+      res = (cutPromise pc vars k env cp, m)) := by
   induction h with
   | collect =>
     intro fuel env m res hrun
@@ -63,17 +70,29 @@ theorem cont_step {tmpl : Term} {max : Nat} {K : Cont} {G : List Term} (h : Cont
         | succ n' =>
           simp only [List.nil_append] at hrun
           rw [body_done] at hrun
-          rcases ih n' env m res hrun with h1 | ⟨g, G', K', fuel', h1, h2, h3, h4, h5⟩
+          rcases ih n' env m res hrun with h1 | ⟨g, cp', G', K', fuel', h1, h2, h3, h4, h5⟩ |
+            ⟨cp', G', pc, vars', k', h1, h2, h3⟩
           · exact Or.inl (by simpa using h1)
-          · exact Or.inr ⟨g, G', K', fuel', by simpa using h1, h2, by omega, h4, h5⟩
+          · exact Or.inr (Or.inl ⟨g, cp', G', K', fuel', by simpa using h1, h2, by omega, h4, h5⟩)
+          · exact Or.inr (Or.inr ⟨cp', G', pc, vars', k', by simpa using h1, h2, h3⟩)
       | cons g gs' =>
-        obtain ⟨seg, ops', rfl, _, hb', _, hcall⟩ := first_goal hsem
-        obtain ⟨hne, hh⟩ := hgs g (by simp)
-        obtain ⟨fuel', hf', harr⟩ := hcall hne vars ρ hren n [.exit] k env cp m res hrun
-        refine Or.inr ⟨(goalTerm g).rename ρ, gs'.map (fun g => (goalTerm g).rename ρ) ++ G,
-          .exec (ops' ++ [.exit]) vars cp k, fuel', by simp, ?_, by omega, ?_, harr⟩
-        · exact .exec hb' hren (fun g' hg' => hgs g' (by simp [hg'])) hk
-        · rw [hornGoal_rename]; exact hh
+        obtain ⟨seg, ops', rfl, _, hb', hcutc, hcall⟩ := first_goal hsem
+        have hk' : ContGoals tmpl max (.exec (ops' ++ [.exit]) vars cp k)
+            (gs'.map (fun g => ((goalTerm g).rename ρ, cp)) ++ G) :=
+          .exec hb' hren (fun g' hg' => hgs g' (by simp [hg'])) hk
+        by_cases hc : g = .atom "!"
+        · subst hc
+          have := hcutc rfl vars n [.exit] k env cp m res hrun
+          refine Or.inr (Or.inr ⟨cp, _, ops' ++ [.exit], vars, k, by simp [goalTerm, Rep.abs, Term.rename, Term.subst], hk', ?_⟩)
+          rw [this]; rfl
+        · have hh : hornGoal (goalTerm g) = true := by
+            rcases hgs g (by simp) with h | h
+            · exact absurd h hc
+            · exact h
+          obtain ⟨fuel', hf', harr⟩ := hcall hc vars ρ hren n [.exit] k env cp m res hrun
+          refine Or.inr (Or.inl ⟨(goalTerm g).rename ρ, cp, _, .exec (ops' ++ [.exit]) vars cp k, fuel', by simp,
+            hk', by omega, ?_, harr⟩)
+          rw [hornGoal_rename]; exact hh
 
 /-! ## the VM's builtin dispatch on the fragment -/
 
@@ -150,6 +169,13 @@ theorem solve_eq (prog : List Term) (n d nv : Nat) (l : Nat) (a b : Term) (rest 
   rw [SLD.solve]
   · simp [SLD.functor, SLD.builtin, Args.toList]
     rfl
+  · intro v hv; cases hv
+
+theorem solve_cut (prog : List Term) (n d nv : Nat) (l : Nat) (rest : List SLD.Frame) (q : Term) (limit : Nat) :
+    SLD.solve false prog (n + 1) d nv (.goal (.atom "!") l :: rest) q limit =
+      (SLD.solve false prog n d nv rest q limit).map (SLD.afterCut l) := by
+  rw [SLD.solve]
+  · simp [SLD.functor]
   · intro v hv; cases hv
 
 theorem solve_nil (prog : List Term) (n d nv : Nat) (q : Term) (limit : Nat) :
